@@ -145,6 +145,27 @@ func c20(c *Ctx) {
 		if guard != nil {
 			// every template match happens only on the member edge
 			var effects []ssa.Instruction
+			// inside matchPath the two strings are split as they are: trimming or cleaning before the split makes
+			// `//name` and `/name` the same path
+			if mp := c.P.Func(load.DeepPkg, "", "matchPath"); mp != nil {
+				splits := an.CallsNamed(mp, "strings.Split")
+				okSplit := len(splits) >= 2
+				var detail []string
+				for _, cs := range splits {
+					o := tr.OriginString(cs.Common.Args[0])
+					detail = append(detail, o)
+					if o == "param#0" || o == "param#1" {
+						continue
+					}
+					// dropping exactly the one leading slash from a string known to start with it is the same segmentation
+					if call, isCall := cs.Common.Args[0].(*ssa.Call); isCall && an.CalleeName(call.Common()) == "strings.TrimPrefix" &&
+						isConstString(call.Call.Args[1], "/") && (tr.OriginString(call.Call.Args[0]) == "param#0" || tr.OriginString(call.Call.Args[0]) == "param#1") {
+						continue
+					}
+					okSplit = false
+				}
+				r.Check(okSplit, "R20.L", "match:segments-verbatim", c.pos(mp.Pos()), "matchPath splits the template and the path themselves into segments (split operands: "+strings.Join(detail, ", ")+"): an empty leading segment is a different path shape")
+			}
 			for _, cs := range an.CallsNamed(hf, load.DeepPkg+".matchPath") {
 				effects = append(effects, cs.Instr)
 			}
